@@ -10,22 +10,21 @@ open JPV JPV.Impl JPV.Proofs.Rq
 
 /-- the top-level segments (depth 0, no open bracket), up to the end of the input -/
 theorem lex_segments_top {f : Nat} {inp : List Char} {segs : List Spec.CSegment}
-    (h : Spec.segments f inp = some (segs, [])) (hnk : nkSegs segs = true)
+    (h : Spec.segments f inp = some (segs, []))
     {l : Lexer} {pre : List Char} {toks : List Token} (hst : FSt 0 l pre [] inp toks []) :
     ∃ lf ts ke, Halts .segment l lf ∧ lf.brackets = [] ∧
       lf.toks = ⟨.eof, [], ke⟩ :: (ts.reverse ++ toks) ∧ FSegsShape segs ts := by
   obtain ⟨l1, pre1, ts, r1, h1, hsh⟩ :=
-    (lexAll f).segments 0 (Int.le_refl 0) inp segs [] h hnk l pre toks [] hst
+    (lexAll f).segments 0 (Int.le_refl 0) inp segs [] h l pre toks [] hst
   have s1 := lexSegment_eof h1
   have hp : l1.peek = none := by rw [h1.peek]; rfl
   rw [Lexer.adv_none hp] at s1
   have h2 := h1.emit .eof
   exact ⟨_, ts, _, r1.halts (.stop s1), h2.br, by rw [h2.toks], hsh⟩
 
-/-- the lexer on a query the grammar derives (filter selectors included), provided no function name in it
-begins with `true`, `false` or `null` -/
-theorem tokenize_full (s : Str) (c : List Spec.CSegment) (hp : Spec.parseQuery s = .valid c)
-    (hnk : nkSegs c = true) :
+/-- the lexer on a query the grammar derives (filter selectors included; function names may begin with
+`true`, `false` or `null`) -/
+theorem tokenize_full (s : Str) (c : List Spec.CSegment) (hp : Spec.parseQuery s = .valid c) :
     ∃ ts k0 ke, FSegsShape c ts ∧
       tokenize s = .ok (⟨.root, ['$'], k0⟩ :: (ts ++ [⟨.eof, [], ke⟩])) := by
   unfold Spec.parseQuery at hp
@@ -46,7 +45,7 @@ theorem tokenize_full (s : Str) (c : List Spec.CSegment) (hp : Spec.parseQuery s
         ⟨by simp [hs], rfl, rfl, rfl, rfl, rfl⟩
       have s1 := lexRoot_exec h0
       have h1 := h0.adv.emit .root
-      obtain ⟨lf, ts, ke, hh, hb, ht, hsh⟩ := lex_segments_top hsegs hnk h1
+      obtain ⟨lf, ts, ke, hh, hb, ht, hsh⟩ := lex_segments_top hsegs h1
       have hrun := run_of_halts (n := s.length) (.step s1 hh) (lexFuel s.length) (Lexer.Inv.init s)
         (by simp [pot, rank, lexFuel])
       refine ⟨ts, 0, ke, hsh, ?_⟩
